@@ -96,8 +96,27 @@ pub fn random_history(cfg: &RandCfg, rng: &mut StdRng, r: &mut Recorder, clients
     };
 
     for _ in 0..cfg.steps {
-        let c = clients[rng.gen_range(0..n)].to_string();
+        let mut c = clients[rng.gen_range(0..n)].to_string();
         let roll = rng.gen_range(0..100);
+        // state-aware choice: for commit-producing actions prefer an actor that can succeed
+        // (an admin member without a pending commit); 25% of the time keep the blind choice so
+        // that refusals are exercised too
+        let commit_roll = (cfg.profile == "members" && roll < 6) || (roll >= 9 && roll < 18) || (cfg.profile != "members" && roll < 18);
+        if commit_roll && rng.gen_bool(0.75) {
+            let mut eligible: Vec<String> = vec![];
+            for x in clients {
+                let p = w.project(x, g);
+                let is_member = p["mls"] == json!("ok");
+                let pend = p["pend"] == json!(true);
+                let admin = p["mdata"]["admins"].as_array().map(|a| a.iter().any(|y| y == x)).unwrap_or(false);
+                if is_member && !pend && (admin || rng.gen_bool(0.3)) {
+                    eligible.push(x.to_string());
+                }
+            }
+            if !eligible.is_empty() {
+                c = eligible[rng.gen_range(0..eligible.len())].clone();
+            }
+        }
         // timestamps: small window so that ties and inversions happen
         let ts = clock - rng.gen_range(0..4);
         let mut rank = rng.gen_range(1..=15u64);
